@@ -41,33 +41,14 @@ var (
 
 // knownClasses: property/oracle/class of confirmed genuine defects of the
 // unchanged tree. Only consulted in lenient mode.
-var knownClasses = map[string]bool{
-	// D1 (pkg/scale zero-filled truncated input: classes truncated-fixed-width-int-
-	// zero-filled, truncated-bytes-zero-filled, truncated-compact-uint-zero-filled,
-	// truncated-compact-bigint-zero-filled) was fixed in /repo by 1b63a0356 and is
-	// therefore NOT in this list any more: a regression stops the run in every mode.
-	// decodeBigInt has no range checks at all (defect D2)
-	"C12/reencode/noncanonical-compact-bigint-accepted": true,
-	// decodeBytes makes the declared length (up to 4 GiB) before reading (defect D3)
-	"C12/alloc/alloc-declared-bytes-length-preallocated": true,
-
-	// C33: the same decodeBytes preallocation reached through the network decoders (D3)
-	"C33/alloc/alloc-exceeds-linear-bound:block-announce":  true, // digest item data
-	"C33/alloc/alloc-exceeds-linear-bound:block-response":  true, // header digests, body extrinsics (NewBodyFromEncodedBytes)
-	"C33/alloc/alloc-exceeds-linear-bound:light-request":   true,
-	"C33/alloc/alloc-exceeds-linear-bound:light-response":  true,
-	"C33/alloc/alloc-exceeds-linear-bound:warp-sync-proof": true,
-	// warp sync proof: GrandpaJustification.VoteAncestries is a slice of an interface
-	// type, pkg/scale dereferences reflect.TypeOf(nil) (D4)
-	"C33/panic/panic@pkg/scale/decode.go:158": true,
-
-	// C07
-	"C07/panic/panic@pkg/trie/node/decode.go:126":              true, // inlined child that is the empty node: nil dereference (D5)
-	"C07/panic/panic@pkg/trie/node/decode.go:59":               true, // header byte 0x01 ("compact encoding" variant): panic("not implemented") (D6)
-	"C07/panic/panic@pkg/trie/triedb/codec/decode.go:63":       true, // the same in the triedb codec (D6)
-	"C07/alloc/alloc-exceeds-linear-bound:node.Decode":         true, // storage value / child hash through decodeBytes (D3)
-	"C07/alloc/alloc-exceeds-linear-bound:triedb/codec.Decode": true,
-}
+//
+// The list is EMPTY now: every defect found on first contact (D1 zero-filled
+// truncated input, D2 non-canonical big integers, D3 declared length
+// preallocated, D4 nil interface in pkg/scale, D5/D6 trie node decoder panics)
+// has been fixed in /repo, so every class is an ordinary violation again in
+// every mode. The switch stays for the next first contact: add
+// "Cxx/<oracle>/<class>" (or a prefix ending in *) here.
+var knownClasses = map[string]bool{}
 
 func known(prop, oracle, class string) bool {
 	if knownClasses[prop+"/"+oracle+"/"+class] {
@@ -91,7 +72,9 @@ type ctx struct {
 	allocC  uint64          // allowed allocation = allocC*len(input) + allocFloor
 }
 
-const allocFloor = 64 << 10
+// allocFloor: constant part of the allocation bound. 128 KiB = twice the 64 KiB
+// chunk in which pkg/scale now grows a byte string while reading it.
+const allocFloor = 128 << 10
 
 func newCtx(k *kernel.K, allocC uint64) *ctx {
 	startWatchdog()
